@@ -56,6 +56,17 @@ type c13Scn struct {
 	Fallback bool `json:"fallback,omitempty"`
 	// DSN: the Client is configured with WithDSN() and the server advertises DSN (per-send use of the Client's DSN settings)
 	DSN bool `json:"dsn,omitempty"`
+	// CtxDL: the goroutines that dial pass a context WITH a deadline (10 s: shorter than the Client's timeout of 15 s,
+	// far longer than anything the harness does; nothing is judged by time)
+	CtxDL bool `json:"ctxdl,omitempty"`
+}
+
+// c13Ctx returns the context a dialling goroutine passes.
+func c13Ctx(scn c13Scn) (context.Context, context.CancelFunc) {
+	if scn.CtxDL {
+		return context.WithTimeout(context.Background(), 10*time.Second)
+	}
+	return context.Background(), func() {}
 }
 
 type c13Case struct {
@@ -64,33 +75,35 @@ type c13Case struct {
 }
 
 var c13Scenarios = []c13Scn{
-	{"2xSend(1)", 2, 0, 1, "", 0, false, false, 0, 0, false, false},
-	{"2xSend(2)", 2, 0, 2, "", 0, false, false, 0, 0, false, false},
-	{"3xSend(1)", 3, 0, 1, "", 0, false, false, 0, 0, false, false},
-	{"2xDialAndSend(1)", 0, 2, 1, "", 0, false, false, 0, 0, false, false},
-	{"Send+DialAndSend", 1, 1, 1, "", 0, false, false, 0, 0, false, false},
-	{"2xSend+DialAndSend", 2, 1, 1, "", 0, false, false, 0, 0, false, false},
-	{"2xDialAndSend(1)+LOGIN", 0, 2, 1, "LOGIN", 0, false, false, 0, 0, false, false},
-	{"2xDialAndSend(1)+SCRAM", 0, 2, 1, "SCRAM-SHA-256", 0, false, false, 0, 0, false, false},
-	{"Send+DialAndSend+AUTODISCOVER", 1, 1, 1, "AUTODISCOVER", 0, false, false, 0, 0, false, false},
-	{"2xSend(1)/rcpt-refused", 2, 0, 1, "", 1, false, false, 0, 0, false, false},
-	{"2xSend(2)/data-refused", 2, 0, 2, "", 3, false, false, 0, 0, false, false},
-	{"Send+DialAndSend/dialer-rcpt-refused", 1, 1, 1, "", 1, false, false, 0, 0, false, false},
-	{"Send+DialAndSend/dialer-rcpt-refused+rset-fails", 1, 1, 1, "", 2, false, false, 0, 0, false, false},
-	{"Send+DialAndSend/dialer-data-refused", 1, 1, 1, "", 3, false, false, 0, 0, false, false},
-	{"2xDialAndSend(1)/rcpt-refused+rset-fails", 0, 2, 1, "", 2, false, false, 0, 0, false, false},
-	{"Send+DialAndSend+debuglog", 1, 1, 1, "", 0, true, false, 0, 0, false, false},
-	{"2xDialAndSend(1)+debuglog", 0, 2, 1, "", 0, true, false, 0, 0, false, false},
-	{"2xDialAndSend(1)+quoted-local-parts", 0, 2, 1, "", 0, false, true, 0, 0, false, false},
-	{"Send+DialAndSend+quoted-local-parts", 1, 1, 1, "", 0, false, true, 0, 0, false, false},
-	{"2xDialAndSend(1)+starttls(caller's config without server name)", 0, 2, 1, "", 0, false, false, 2, 0, false, false},
-	{"2xDialAndSend(1)+fallback-port", 0, 2, 1, "", 0, false, false, 0, 0, true, false},
+	{"2xSend(1)", 2, 0, 1, "", 0, false, false, 0, 0, false, false, false},
+	{"2xSend(2)", 2, 0, 2, "", 0, false, false, 0, 0, false, false, false},
+	{"3xSend(1)", 3, 0, 1, "", 0, false, false, 0, 0, false, false, false},
+	{"2xDialAndSend(1)", 0, 2, 1, "", 0, false, false, 0, 0, false, false, false},
+	{"Send+DialAndSend", 1, 1, 1, "", 0, false, false, 0, 0, false, false, false},
+	{"2xSend+DialAndSend", 2, 1, 1, "", 0, false, false, 0, 0, false, false, false},
+	{"2xDialAndSend(1)+LOGIN", 0, 2, 1, "LOGIN", 0, false, false, 0, 0, false, false, false},
+	{"2xDialAndSend(1)+SCRAM", 0, 2, 1, "SCRAM-SHA-256", 0, false, false, 0, 0, false, false, false},
+	{"Send+DialAndSend+AUTODISCOVER", 1, 1, 1, "AUTODISCOVER", 0, false, false, 0, 0, false, false, false},
+	{"2xSend(1)/rcpt-refused", 2, 0, 1, "", 1, false, false, 0, 0, false, false, false},
+	{"2xSend(2)/data-refused", 2, 0, 2, "", 3, false, false, 0, 0, false, false, false},
+	{"Send+DialAndSend/dialer-rcpt-refused", 1, 1, 1, "", 1, false, false, 0, 0, false, false, false},
+	{"Send+DialAndSend/dialer-rcpt-refused+rset-fails", 1, 1, 1, "", 2, false, false, 0, 0, false, false, false},
+	{"Send+DialAndSend/dialer-data-refused", 1, 1, 1, "", 3, false, false, 0, 0, false, false, false},
+	{"2xDialAndSend(1)/rcpt-refused+rset-fails", 0, 2, 1, "", 2, false, false, 0, 0, false, false, false},
+	{"Send+DialAndSend+debuglog", 1, 1, 1, "", 0, true, false, 0, 0, false, false, false},
+	{"2xDialAndSend(1)+debuglog", 0, 2, 1, "", 0, true, false, 0, 0, false, false, false},
+	{"2xDialAndSend(1)+quoted-local-parts", 0, 2, 1, "", 0, false, true, 0, 0, false, false, false},
+	{"Send+DialAndSend+quoted-local-parts", 1, 1, 1, "", 0, false, true, 0, 0, false, false, false},
+	{"2xDialAndSend(1)+starttls(caller's config without server name)", 0, 2, 1, "", 0, false, false, 2, 0, false, false, false},
+	{"2xDialAndSend(1)+fallback-port", 0, 2, 1, "", 0, false, false, 0, 0, true, false, false},
 	{Name: "Send+DialAndSend+DSN", Senders: 1, Dialers: 1, PerCall: 1, DSN: true},
-	{"DialAndSend+DialToSMTPClient+fallback-port", 0, 1, 1, "", 0, false, false, 0, 1, true, false},
-	{"2xDialToSMTPClient+SendWithSMTPClient", 0, 0, 1, "", 0, false, false, 0, 2, false, false},
-	{"Send+DialToSMTPClient+SendWithSMTPClient", 1, 0, 1, "", 0, false, false, 0, 1, false, false},
-	{"DialAndSend+DialToSMTPClient+SendWithSMTPClient+LOGIN", 0, 1, 1, "LOGIN", 0, false, false, 0, 1, false, false},
-	{"2xDialToSMTPClient+SendWithSMTPClient/rcpt-refused+rset-fails", 0, 0, 1, "", 2, false, false, 0, 2, false, false},
+	{"DialAndSend+DialToSMTPClient+fallback-port", 0, 1, 1, "", 0, false, false, 0, 1, true, false, false},
+	{"2xDialToSMTPClient+SendWithSMTPClient", 0, 0, 1, "", 0, false, false, 0, 2, false, false, false},
+	{"Send+DialToSMTPClient+SendWithSMTPClient", 1, 0, 1, "", 0, false, false, 0, 1, false, false, false},
+	{"DialAndSend+DialToSMTPClient+SendWithSMTPClient+LOGIN", 0, 1, 1, "LOGIN", 0, false, false, 0, 1, false, false, false},
+	{"2xDialToSMTPClient+SendWithSMTPClient/rcpt-refused+rset-fails", 0, 0, 1, "", 2, false, false, 0, 2, false, false, false},
+	{Name: "Send+DialAndSend(context with a deadline)", Senders: 1, Dialers: 1, PerCall: 1, CtxDL: true},
+	{Name: "2xDialAndSend(context with a deadline)", Dialers: 2, PerCall: 1, CtxDL: true},
 }
 
 var c13Blocked int32
@@ -226,7 +239,9 @@ func c13Build(r *vf.Run, scn c13Scn, hook func(string)) *c13World {
 			w.bodies = append(w.bodies, func() { w.errs[t] = cl.Send(w.msgs[t]...) })
 		} else if t >= scn.Senders+scn.Dialers {
 			w.bodies = append(w.bodies, func() {
-				sc, err := cl.DialToSMTPClientWithContext(context.Background())
+				ctx, cancel := c13Ctx(scn)
+				defer cancel()
+				sc, err := cl.DialToSMTPClientWithContext(ctx)
 				if err != nil {
 					w.errs[t] = err
 					return
@@ -237,7 +252,11 @@ func c13Build(r *vf.Run, scn c13Scn, hook func(string)) *c13World {
 				}
 			})
 		} else {
-			w.bodies = append(w.bodies, func() { w.errs[t] = cl.DialAndSendWithContext(context.Background(), w.msgs[t]...) })
+			w.bodies = append(w.bodies, func() {
+				ctx, cancel := c13Ctx(scn)
+				defer cancel()
+				w.errs[t] = cl.DialAndSendWithContext(ctx, w.msgs[t]...)
+			})
 		}
 	}
 	return w
@@ -381,15 +400,16 @@ func c13RacePass(iter int) int {
 		iter = 1
 	}
 	for it := 0; it < iter; it++ {
-		list := []c13Scn{{"2", 2, 0, 1, "", 0, false, false, 0, 0, false, false}, {"8", 6, 2, 1, "", 0, false, false, 0, 0, false, false}, {"64", 48, 16, 1, "", 0, false, false, 0, 0, false, false}, {"3x2", 3, 0, 2, "", 0, false, false, 0, 0, false, false}, {"dial", 0, 4, 1, "", 0, false, false, 0, 0, false, false},
-			{"dial+login", 0, 6, 1, "LOGIN", 0, false, false, 0, 0, false, false}, {"mixed+scram", 3, 5, 1, "SCRAM-SHA-256", 0, false, false, 0, 0, false, false}, {"mixed+auto", 2, 6, 1, "AUTODISCOVER", 0, false, false, 0, 0, false, false},
-			{"mixed+debuglog", 4, 4, 1, "", 0, true, false, 0, 0, false, false}, {"dial+login+debuglog", 0, 6, 1, "LOGIN", 0, true, false, 0, 0, false, false},
-			{"mixed+quoted-local-parts", 3, 6, 1, "", 0, false, true, 0, 0, false, false},
-			{"dial+starttls", 0, 6, 1, "", 0, false, false, 1, 0, false, false}, {"dial+starttls(caller's config without server name)", 0, 6, 1, "", 0, false, false, 2, 0, false, false},
-			{"mixed+starttls+login(caller's config without server name)", 2, 4, 1, "LOGIN", 0, false, false, 2, 0, false, false},
-			{"mixed+own-connections", 2, 2, 1, "", 0, false, false, 0, 4, false, false}, {"own-connections+scram+starttls", 0, 0, 1, "SCRAM-SHA-256", 0, false, false, 1, 6, false, false},
-			{"dial+fallback-port", 0, 6, 1, "", 0, false, false, 0, 2, true, false},
-			{Name: "mixed+DSN", Senders: 2, Dialers: 4, PerCall: 2, DSN: true}}
+		list := []c13Scn{{"2", 2, 0, 1, "", 0, false, false, 0, 0, false, false, false}, {"8", 6, 2, 1, "", 0, false, false, 0, 0, false, false, false}, {"64", 48, 16, 1, "", 0, false, false, 0, 0, false, false, false}, {"3x2", 3, 0, 2, "", 0, false, false, 0, 0, false, false, false}, {"dial", 0, 4, 1, "", 0, false, false, 0, 0, false, false, false},
+			{"dial+login", 0, 6, 1, "LOGIN", 0, false, false, 0, 0, false, false, false}, {"mixed+scram", 3, 5, 1, "SCRAM-SHA-256", 0, false, false, 0, 0, false, false, false}, {"mixed+auto", 2, 6, 1, "AUTODISCOVER", 0, false, false, 0, 0, false, false, false},
+			{"mixed+debuglog", 4, 4, 1, "", 0, true, false, 0, 0, false, false, false}, {"dial+login+debuglog", 0, 6, 1, "LOGIN", 0, true, false, 0, 0, false, false, false},
+			{"mixed+quoted-local-parts", 3, 6, 1, "", 0, false, true, 0, 0, false, false, false},
+			{"dial+starttls", 0, 6, 1, "", 0, false, false, 1, 0, false, false, false}, {"dial+starttls(caller's config without server name)", 0, 6, 1, "", 0, false, false, 2, 0, false, false, false},
+			{"mixed+starttls+login(caller's config without server name)", 2, 4, 1, "LOGIN", 0, false, false, 2, 0, false, false, false},
+			{"mixed+own-connections", 2, 2, 1, "", 0, false, false, 0, 4, false, false, false}, {"own-connections+scram+starttls", 0, 0, 1, "SCRAM-SHA-256", 0, false, false, 1, 6, false, false, false},
+			{"dial+fallback-port", 0, 6, 1, "", 0, false, false, 0, 2, true, false, false},
+			{Name: "mixed+DSN", Senders: 2, Dialers: 4, PerCall: 2, DSN: true},
+			{Name: "mixed+context-deadlines", Senders: 3, Dialers: 5, PerCall: 1, CtxDL: true}, {Name: "own-connections+context-deadlines", Senders: 1, Dialers: 2, Pool: 3, PerCall: 1, CtxDL: true}}
 		if firstUse {
 			// a fresh process whose very first failures happen in several goroutines at once (lazily initialised state)
 			list = []c13Scn{{Name: "first failures of the process, 8 dialers, every message refused", Dialers: 8, PerCall: 1, Fault: 4}, {Name: "first failures, senders and dialers", Senders: 1, Dialers: 4, PerCall: 1, Fault: 4}}
@@ -441,7 +461,7 @@ func init() {
 	vf.Register(&vf.Check{
 		ID: "C13", Title: "concurrent use of one Client is safe",
 		Run: func(r *vf.Run) {
-			r.SetRule("scenarios {2×Send(1 msg), 2×Send(2 msgs), 3×Send(1), 2×DialAndSend, Send+DialAndSend, 2×Send+DialAndSend, 2×DialAndSend with LOGIN / SCRAM authentication, Send+DialAndSend with auto-discovered authentication; scenarios with debug logging through the library's own logger, scenarios with DSN options on the Client, scenarios whose envelope addresses need quoting, scenarios in which the primary port refuses and every connection comes from the fallback port of a port policy (each dial attempt is a visible operation), scenarios in which goroutines use the connection-per-caller API (DialToSMTPClientWithContext, SendWithSMTPClient, CloseWithSMTPClient) next to each other and next to Send / DialAndSend, scenarios in which every connection negotiates STARTTLS (real crypto/tls handshakes) with one caller-supplied tls.Config that does not name the server, and scenarios in which the server refuses one message (a recipient with or without a failing clean-up RSET, or DATA) of one thread while the other threads' messages must be unaffected} on one Client; ALL interleavings at visible operations (every Lock/RLock of go-mail's mutexes through the sync shim, every connection Read/Write/Close) up to the preemption bound, under a cooperative scheduler that models Go's RWMutex (a waiting writer blocks new readers); oracle per schedule: protocol monitor on every connection, commit log = every message the server did not refuse exactly once with its own envelope and complete content (a refused one never), exactly the calls without a refused message return nil, no deadlock; plus a separate free-running pass of the same bodies under the Go race detector (2..64 goroutines, jittered I/O; preceded by eight fresh processes whose very first failing deliveries overlap in 8 goroutines, for state initialised on first use) — that pass samples schedules; distinct by (scenario, schedule)")
+			r.SetRule("scenarios {2×Send(1 msg), 2×Send(2 msgs), 3×Send(1), 2×DialAndSend, Send+DialAndSend, 2×Send+DialAndSend, 2×DialAndSend with LOGIN / SCRAM authentication, Send+DialAndSend with auto-discovered authentication; scenarios with debug logging through the library's own logger, scenarios with DSN options on the Client, scenarios in which the dialling goroutines pass contexts with a deadline, scenarios whose envelope addresses need quoting, scenarios in which the primary port refuses and every connection comes from the fallback port of a port policy (each dial attempt is a visible operation), scenarios in which goroutines use the connection-per-caller API (DialToSMTPClientWithContext, SendWithSMTPClient, CloseWithSMTPClient) next to each other and next to Send / DialAndSend, scenarios in which every connection negotiates STARTTLS (real crypto/tls handshakes) with one caller-supplied tls.Config that does not name the server, and scenarios in which the server refuses one message (a recipient with or without a failing clean-up RSET, or DATA) of one thread while the other threads' messages must be unaffected} on one Client; ALL interleavings at visible operations (every Lock/RLock of go-mail's mutexes through the sync shim, every connection Read/Write/Close) up to the preemption bound, under a cooperative scheduler that models Go's RWMutex (a waiting writer blocks new readers); oracle per schedule: protocol monitor on every connection, commit log = every message the server did not refuse exactly once with its own envelope and complete content (a refused one never), exactly the calls without a refused message return nil, no deadlock; plus a separate free-running pass of the same bodies under the Go race detector (2..64 goroutines, jittered I/O; preceded by eight fresh processes whose very first failing deliveries overlap in 8 goroutines, for state initialised on first use) — that pass samples schedules; distinct by (scenario, schedule)")
 			r.Assume("releases are not preemption points (sound for data-race-free code; races are the job of the separate -race pass)", "the race pass is sampling, not exhaustive: the 'no data race under any schedule' clause is only decided for the schedules it happens to run")
 			bound := 2
 			if r.Thorough {
